@@ -236,3 +236,78 @@ Theorem C01_check_bh_is_closed_formula :
     check_bh (e, obs) = forallb (fun '(cur, req, nz) => Bool.eqb (bh_available e cur req) nz) obs.
 Proof. exact check_bh_spec. Qed.
 Print Assumptions C01_check_bh_is_closed_formula.
+
+(** ---- the base fee (x/feemarket BeginBlock / EndBlock around the computation of property C17) ---- *)
+From HV Require Import Base.Dec Feemarket.BaseFeeModel App.FeeReplicaModel App.FeeReplicaProofs.
+
+(** The base fee is rewritten by every block and read by every transaction.  Whatever happens to a
+    node between and around the blocks that is not a block input -- queries, CheckTx, restarts from
+    the database, further application objects in the process -- in any interleaving: two replicas
+    that got the same blocks (Block.MaxGas in force, parameter updates, declared and consumed gas)
+    have the same fee-market store, hence the same base fee, after every block. *)
+Theorem C01_base_fee_replicas_agree :
+  forall (evs1 evs2 : list fevent) (on : option fnode),
+    fblocks_of evs1 = fblocks_of evs2 ->
+    length (ftrace evs1 on) = length (fblocks_of evs1) /\
+    ftrace evs1 on = ftrace evs2 on /\
+    frun evs1 on = frun evs2 on /\
+    Forall2 (fun a b => a = b /\ base_fee_of a = base_fee_of b) (ftrace evs1 on) (ftrace evs2 on).
+Proof. exact fee_replicas_agree. Qed.
+Print Assumptions C01_base_fee_replicas_agree.
+
+(** The block step of that node is the block of property C17's model (no parameter update). *)
+Theorem C01_base_fee_block_is_c17_block :
+  forall (n : fnode) (mg : option Z) (w u : Z),
+    fblock_step n mg None w u =
+    match block (fn_state n) (mkblk (fn_height n + 1) mg w u) with
+    | Some s => Some (mkfn s (fn_height n + 1))
+    | None => None
+    end.
+Proof. exact fblock_step_is_c17_block. Qed.
+Print Assumptions C01_base_fee_block_is_c17_block.
+
+(** The harness hands every BeginBlock of the leading replica to [check_fee]: it accepts exactly
+    when the base fee found in the store is the one the modelled BeginBlock stores. *)
+Theorem C01_check_fee_is_begin_block :
+  forall (p : params) (h : Z) (mg : option Z) (g : Z) (a : option Z),
+    check_fee (p, h, mg, g, a) = true <->
+    exists s', begin_block (mkfs p g) h mg = Some s' /\ p_base_fee (fs_params s') = a /\ fs_bgw s' = g.
+Proof. exact check_fee_spec. Qed.
+Print Assumptions C01_check_fee_is_begin_block.
+
+(** Non-vacuity: base fee 7, Block.MaxGas 8,000,000, elasticity 2, every block above the target:
+    blocks 2 and 3 take the minimum step of the increase, 7, 8, 9, with or without a query, a
+    CheckTx and a restart in between. *)
+Theorem C01_base_fee_min_step_twice :
+  let quiet := [ex_b; ex_b; ex_b] in
+  let restarted := [ex_b; FQuery; ex_b; FRestart; FCheckTx; ex_b] in
+  fblocks_of restarted = fblocks_of quiet /\
+  map base_fee_of (ftrace quiet (Some ex_node)) = [Some 7; Some 8; Some 9] /\
+  map base_fee_of (ftrace restarted (Some ex_node)) = [Some 7; Some 8; Some 9].
+Proof. exact min_step_twice_as_implemented. Qed.
+Print Assumptions C01_base_fee_min_step_twice.
+
+(** Why the histories must reach the minimum step twice with a restart (or a replica in another
+    process) in between: in the same model with the "1" of the minimum step held in a value shared
+    by the operating-system process and updated in place, a fresh process computes the formula, the
+    first minimum step overwrites the shared value, and the same three blocks give base fee 16 on
+    the node that ran on and 9 on the node restarted before the third block -- while the function
+    as implemented gives 9 on both. *)
+Theorem C01_base_fee_shared_one_fresh_process_is_formula :
+  forall base g T d m : Z, fst (next_base_fee_shared 1 base g T d m) = next_base_fee base g T d m.
+Proof. exact shared_one_fresh_is_formula. Qed.
+Print Assumptions C01_base_fee_shared_one_fresh_process_is_formula.
+
+Theorem C01_base_fee_shared_one_breaks_agreement_refuted_in_model :
+  let quiet := [ex_b; ex_b; ex_b] in
+  let restarted := [ex_b; ex_b; FRestart; ex_b] in
+  let early := [ex_b; FRestart; ex_b; ex_b] in
+  fblocks_of restarted = fblocks_of quiet /\ fblocks_of early = fblocks_of quiet /\
+  sbase_fee_of (srun [ex_b; ex_b] (Some ex_snode)) = Some 8 /\
+  sbase_fee_of (srun quiet (Some ex_snode)) = Some 16 /\
+  sbase_fee_of (srun restarted (Some ex_snode)) = Some 9 /\
+  sbase_fee_of (srun early (Some ex_snode)) = Some 16 /\
+  base_fee_of (frun quiet (Some ex_node)) = Some 9 /\
+  base_fee_of (frun restarted (Some ex_node)) = Some 9.
+Proof. exact shared_one_breaks_agreement. Qed.
+Print Assumptions C01_base_fee_shared_one_breaks_agreement_refuted_in_model.
